@@ -226,16 +226,19 @@ func (m *observerManager) RemoveObserver(o *Observer) {
 	}
 	delete(m.indices, o.id)
 
-	observers := m.observers[o.event]
-	observers[idx].id = maxObserverID
+	old := m.observers[o.event]
+	old[idx].id = maxObserverID
 
-	last := uint32(len(observers) - 1)
+	// Copy instead of swap-removing in place: observers can be removed from inside
+	// a callback, while the old slice is being iterated for event dispatch.
+	last := uint32(len(old) - 1)
+	observers := make([]*observerData, last)
+	copy(observers, old[:last])
 	if idx != last {
-		observers[idx], observers[last] = observers[last], observers[idx]
+		observers[idx] = old[last]
 		m.indices[observers[idx].id] = idx
 	}
-	observers[last] = nil
-	m.observers[o.event] = observers[:last]
+	m.observers[o.event] = observers
 	m.hasObservers[o.event] = last > 0
 	m.totalCount--
 
